@@ -140,14 +140,15 @@ impl<W: Write> ProtocolWriter<W> for DefaultProtocolWriter<W> {
         if self.ok {
             #[cfg(feature = "Debug_Serializer")]
             debug!("String {}", value);
-            let mut len = value.len();
+            let len = value.len();
             if len < (1usize << 4) {
                 self.write_type_and_value(FSM_PROTOCOL_TYPE_STRING_LENGTH_4BIT, len as u64, 4);
-            } else {
+            } else if len < (1usize << 12) {
                 self.write_type_and_value(FSM_PROTOCOL_TYPE_STRING_LENGTH_12BIT, len as u64, 12);
-                len &= 0x0FFFusize;
+            } else {
+                self.write_type_and_value(FSM_PROTOCOL_TYPE_STRING_LENGTH_64BIT, len as u64, 68);
             }
-            let r = self.writer.write(value[0..len].as_bytes());
+            let r = self.writer.write(value.as_bytes());
             match r {
                 Ok(_) => {}
                 Err(error) => {
